@@ -617,9 +617,17 @@ func (st *verifC13State) barrier() bool {
 			// background writes are in flight: if that persists a slot was not given back
 			if leakSince.IsZero() {
 				leakSince = time.Now()
-			} else if time.Since(leakSince) > 4*time.Second {
-				st.flags = append(st.flags, fmt.Sprintf("throttle-leak=%d", t-n))
-				return false
+			} else if d := time.Since(leakSince); d > 20*time.Second || (d > time.Second && verifC13Stuck()) {
+				// (stuck: every goroutine of the package is parked, so nobody is on the way to
+				// PutB or to Release any more); the counts must not have moved meanwhile
+				st.kc.mtx.Lock()
+				n2, infl2 := len(st.kc.parked), st.kc.inflight
+				st.kc.mtx.Unlock()
+				if t2 := len(st.cfs.thr.c); n2 == n && infl2 == infl && t2 == t {
+					st.flags = append(st.flags, fmt.Sprintf("throttle-leak=%d", t-n))
+					return false
+				}
+				leakSince = time.Time{}
 			}
 		} else {
 			leakSince = time.Time{}
@@ -809,6 +817,63 @@ func (st *verifC13State) complete(g int, ok bool) (ran bool, alive bool) {
 	}
 }
 
+
+// verifC13AllBlocked reports whether every goroutine that is executing code of this package (other
+// than the caller) is parked on a mutex, channel, select or WaitGroup: nothing can make progress any
+// more, whatever the load on the machine. A goroutine that is runnable, running, sleeping or in a
+// system call makes the answer false.
+func verifC13AllBlocked() bool {
+	buf := make([]byte, 1<<20)
+	for {
+		n := runtime.Stack(buf, true)
+		if n < len(buf) {
+			buf = buf[:n]
+			break
+		}
+		buf = make([]byte, 2*len(buf))
+	}
+	first := true
+	seen := 0
+	for _, g := range strings.Split(string(buf), "\n\n") {
+		if first { // the caller
+			first = false
+			continue
+		}
+		if !strings.Contains(g, "sdk/go/arvados.") {
+			continue
+		}
+		i, j := strings.Index(g, "["), strings.Index(g, "]")
+		if i < 0 || j < i {
+			return false
+		}
+		state := g[i+1 : j]
+		blocked := false
+		for _, pre := range []string{"chan receive", "chan send", "select", "sync.", "semacquire"} {
+			if strings.HasPrefix(state, pre) {
+				blocked = true
+			}
+		}
+		if !blocked {
+			return false
+		}
+		// leaked goroutines of earlier cases and idle workers sit in the driver's own code; count
+		// only goroutines that are parked inside the filesystem
+		if strings.Contains(g, "fs_collection.go") || strings.Contains(g, "fs_base.go") || strings.Contains(g, "fs_filehandle.go") {
+			seen++
+		}
+	}
+	return seen > 0
+}
+
+// verifC13Stuck: all blocked, seen twice 50 ms apart.
+func verifC13Stuck() bool {
+	if !verifC13AllBlocked() {
+		return false
+	}
+	time.Sleep(50 * time.Millisecond)
+	return verifC13AllBlocked()
+}
+
 type verifC13Req struct {
 	op    string
 	reply chan string
@@ -843,7 +908,24 @@ func verifC13Det(max int, evs []string) string {
 			close(ch)
 		}
 	}()
+	var ensure func(w string) chan verifC13Req
 	run := func(w, op string) (string, bool) {
+		ch := ensure(w)
+		req := verifC13Req{op: op, reply: make(chan string, 1)}
+		select {
+		case ch <- req:
+		case <-time.After(time.Until(st.deadline)):
+			return "", false
+		}
+		select {
+		case r := <-req.reply:
+			return r, true
+		case <-time.After(time.Until(st.deadline)):
+			return "", false
+		}
+	}
+	// ensure creates worker w's goroutine; only the scheduler goroutine may create one
+	ensure = func(w string) chan verifC13Req {
 		ch, ok := workers[w]
 		if !ok {
 			ch = make(chan verifC13Req)
@@ -864,22 +946,16 @@ func verifC13Det(max int, evs []string) string {
 				}
 			}()
 		}
-		req := verifC13Req{op: op, reply: make(chan string, 1)}
-		select {
-		case ch <- req:
-		case <-time.After(time.Until(st.deadline)):
-			return "", false
-		}
-		select {
-		case r := <-req.reply:
-			return r, true
-		case <-time.After(time.Until(st.deadline)):
-			return "", false
-		}
+		return ch
 	}
 	var res []string
 	last := ""
 	dead := func(i int) string {
+		if os.Getenv("VERIF_C13_DEBUG") != "" {
+			b := make([]byte, 1<<18)
+			b = b[:runtime.Stack(b, true)]
+			os.WriteFile("/verif/build/C13/deadstack.txt", b, 0644)
+		}
 		what := "DEADLOCK"
 		for _, f := range st.flags {
 			if strings.HasPrefix(f, "throttle-leak") {
@@ -889,6 +965,7 @@ func verifC13Det(max int, evs []string) string {
 		return strings.Join(append(res, fmt.Sprintf("%s at event %d (%s)", what, i, strings.Join(st.flags, ","))), ";")
 	}
 	for i, ev := range evs {
+		st.deadline = time.Now().Add(60 * time.Second) // per event
 		var head string
 		a := strings.Split(ev, ",")
 		if a[0] == "c" {
@@ -928,7 +1005,120 @@ func verifC13Det(max int, evs []string) string {
 			if _, err := strconv.Atoi(w); err != nil {
 				return "bad-op"
 			}
-			if strings.HasPrefix(op, "save,") {
+			if strings.HasPrefix(op, "psave,") {
+				// psave,<mask>,<m|s>,<w2>.<op2>: a save during which ONE block write fails while the
+				// others are still in flight (parked), and worker w2 issues op2 concurrently; the
+				// parked writes are released (successfully) once op2 has returned or 150 ms have
+				// passed. With correct locking op2 cannot get at the files before the save is over.
+				b := strings.SplitN(op, ",", 4)
+				if len(b) != 4 || (b[2] != "m" && b[2] != "s") {
+					return "bad-op"
+				}
+				mask, err := strconv.ParseUint(b[1], 10, 62)
+				dot2 := strings.Index(b[3], ".")
+				if err != nil || dot2 <= 0 {
+					return "bad-op"
+				}
+				w2, op2 := b[3][:dot2], b[3][dot2+1:]
+				if _, err := strconv.Atoi(w2); err != nil || w2 == w || strings.HasPrefix(op2, "save,") || strings.HasPrefix(op2, "psave,") {
+					return "bad-op"
+				}
+				for g := range st.groups {
+					if _, alive := st.complete(g, mask>>(uint(g)%30)&1 == 1); !alive {
+						return dead(i)
+					}
+				}
+				if !st.barrier() {
+					return dead(i)
+				}
+				ensure(w)
+				ensure(w2)
+				saveReply := make(chan string, 1)
+				go func() {
+					r, alive := run(w, "save,"+b[2])
+					if !alive {
+						r = ""
+					}
+					saveReply <- r
+				}()
+				// wait for the save's first block write (or for the save to return without one)
+				var sres string
+				gotSave := false
+				var victim *verifC13Put
+				for victim == nil && !gotSave {
+					select {
+					case sres = <-saveReply:
+						gotSave = true
+					default:
+						st.kc.mtx.Lock()
+						if len(st.kc.parked) > 0 {
+							victim = st.kc.parked[0]
+						}
+						st.kc.mtx.Unlock()
+						if victim == nil {
+							if time.Now().After(st.deadline) {
+								return dead(i)
+							}
+							time.Sleep(50 * time.Microsecond)
+						}
+					}
+				}
+				var slow []*verifC13Put
+				if victim != nil {
+					time.Sleep(2 * time.Millisecond) // let the other block writes of the save arrive
+					st.kc.mtx.Lock()
+					for _, p := range st.kc.parked {
+						if bytes.Compare(p.snap, victim.snap) < 0 {
+							victim = p
+						}
+					}
+					for _, p := range st.kc.parked {
+						if p != victim {
+							slow = append(slow, p)
+						}
+					}
+					st.kc.mode = verifC13ModeOK // later arrivals are not held up
+					st.kc.mtx.Unlock()
+					st.releasePut(victim, false)
+				}
+				opReply := make(chan string, 1)
+				go func() {
+					r, alive := run(w2, op2)
+					if !alive {
+						r = ""
+					}
+					opReply <- r
+				}()
+				var ores string
+				gotOp := false
+				select {
+				case ores = <-opReply:
+					gotOp = true
+				case <-time.After(150 * time.Millisecond):
+				}
+				for _, p := range slow {
+					st.releasePut(p, true)
+				}
+				if !gotSave {
+					sres = <-saveReply
+				}
+				if !gotOp {
+					ores = <-opReply
+				}
+				st.kc.setMode(verifC13ModePark)
+				if sres == "" || ores == "" {
+					return dead(i)
+				}
+				if ores == "bad-op" {
+					return "bad-op"
+				}
+				if sres[0] == 'M' {
+					head = "ok=" + st.snapManifest(sres[1:])
+				} else {
+					head = sres[1:]
+				}
+				head += "&" + ores
+			} else if strings.HasPrefix(op, "save,") {
 				b := strings.Split(op, ",")
 				if len(b) != 4 || (b[2] != "0" && b[2] != "1") || (b[3] != "m" && b[3] != "s") {
 					return "bad-op"
@@ -1072,16 +1262,45 @@ func verifC13Free(max, thr int, seed int64, failpct int, streams []string) strin
 	close(begin)
 	done := make(chan struct{})
 	go func() { wg.Wait(); close(done) }()
-	select {
-	case <-done:
-	case <-time.After(45 * time.Second):
-		buf := make([]byte, 1<<16)
+	deadline := time.After(150 * time.Second)
+	tick := time.NewTicker(time.Second)
+	defer tick.Stop()
+	finishedOK, why := false, "every goroutine parked"
+	lastProgress, lastSum := time.Now(), int64(-1)
+	for !finishedOK {
+		stuck := false
+		select {
+		case <-done:
+			finishedOK = true
+			continue
+		case <-deadline:
+			stuck, why = true, "150 s deadline"
+		case <-tick.C:
+			var sum int64
+			for i := range started {
+				sum += atomic.LoadInt64(&started[i]) + atomic.LoadInt64(&finished[i])
+			}
+			if sum != lastSum {
+				lastSum, lastProgress = sum, time.Now()
+			} else if time.Since(lastProgress) > 3*time.Second {
+				// no operation started or finished for 3 s: a deadlock only if, in addition, every
+				// goroutine of the package is parked (no PutB sleeping, nothing runnable)
+				stuck = verifC13Stuck()
+			}
+		}
+		if !stuck {
+			continue
+		}
+		buf := make([]byte, 1<<18)
 		n := runtime.Stack(buf, true)
+		if os.Getenv("VERIF_C13_DEBUG") != "" {
+			os.WriteFile("/verif/build/C13/freestack.txt", buf[:n], 0644)
+		}
 		stacks := strings.Join(strings.Fields(string(buf[:n])), " ")
 		if len(stacks) > 1500 {
 			stacks = stacks[:1500]
 		}
-		return "DEADLOCK workers did not finish: started=" + counters(started) + " finished=" + counters(finished) + " " +
+		return "DEADLOCK workers did not finish (" + why + "): started=" + counters(started) + " finished=" + counters(finished) + " " +
 			strings.NewReplacer(";", ",", "|", ",").Replace(stacks)
 	}
 	if atomic.LoadInt32(&bad) != 0 {
@@ -1197,16 +1416,21 @@ func TestVerifC13(t *testing.T) {
 	sc := bufio.NewScanner(in)
 	sc.Buffer(make([]byte, 1<<20), 1<<28)
 	racelog := verifC13RaceLog()
+	sawRace := false
 	for sc.Scan() {
 		r := verifC13Case(sc.Text())
 		if n := verifC13RaceLog(); n != racelog {
 			racelog = n
 			r += " RACE"
+			sawRace = true
 		}
 		fmt.Fprintln(w, r)
 		w.Flush()
 	}
-	if base := os.Getenv("VERIF_C13_RACELOG"); base != "" {
-		os.Remove(fmt.Sprintf("%s.%d", base, os.Getpid()))
+	if sawRace {
+		// the races are reported per case; the testing package would fail the whole process
+		w.Flush()
+		outf.Close()
+		os.Exit(0)
 	}
 }
